@@ -9,7 +9,7 @@ from fractions import Fraction
 from harness import common, oplab
 
 ID = "C09"
-LEAN_MODULES = ["PptxModel.Props.C09", "PptxModel.Props.C09C", "PptxModel.Props.C09F", "PptxModel.Props.C09A", "PptxModel.Props.C09S"]
+LEAN_MODULES = ["PptxModel.Props.C09", "PptxModel.Props.C09C", "PptxModel.Props.C09F", "PptxModel.Props.C09A", "PptxModel.Props.C09S", "PptxModel.Props.C09T"]
 RULE = (
     "the property table of harness/oplab.py (~110 read/write properties of Presentation, slides, shapes, pictures, "
     "connectors, text frames, paragraphs, runs, fonts, lines, colours, gradient / pattern fills, tables, cells, rows, "
@@ -21,7 +21,7 @@ RULE = (
     "readings again after save + re-open.  Stored integers of the non-identity conversions (font size, rotation, crop, "
     "adjustments, brightness, gradient angle, stop position, line spacing) and assignment histories on attribute stores "
     "(a:rPr, a:bodyPr, a:tcPr) are compared exactly with the Lean model.  ColorFormat, FillFormat and shape.adjustments are compared "
-    "(and paragraph spacing: line_spacing / space_before / space_after, Model/Spacing) "
+    "(and paragraph spacing: line_spacing / space_before / space_after, Model/Spacing; TextFrame.auto_size, Model/Autofit) "
     "with their state-machine models (Model/Color, Model/Fill, Model/Adjust) after every call of seeded histories from start states "
     "the library never writes, each call through a proxy held from the start or through a new one (fonts, fills, lines, gradient "
     "stops, pattern colours, table cells, chart series, slide backgrounds; the owner's .color shortcut; several proxies of one "
@@ -1298,6 +1298,89 @@ def spacings(ctx):
             ctx.disagree("spacing", dict(meta, line=line), i, m)
 
 
+def autofits(ctx):
+    """`TextFrame.auto_size` against `Model/Autofit` (`c09.fit`): a:bodyPr with any autofit children to start from (several, of several
+    kinds, a:normAutofit with fontScale / lnSpcReduction as PowerPoint writes it), seeded histories of None / members / non-members
+    through a held or a new text-frame proxy; verdict, children as stored and the reading after EVERY assignment, and after re-open"""
+    from lxml import etree
+    from pptx import Presentation
+    from pptx.enum.text import MSO_AUTO_SIZE
+
+    rng = ctx.rng
+    A = oplab_ns()
+    tags = ["noAutofit", "normAutofit", "spAutoFit"]
+    members = [MSO_AUTO_SIZE.NONE, MSO_AUTO_SIZE.TEXT_TO_FIT_SHAPE, MSO_AUTO_SIZE.SHAPE_TO_FIT_TEXT]
+    scripts = [("2/n/n,1/62500/20000,0/n/n", ["x", "2", "x", "n", "1"]), ("1/62500/n", ["1", "n"]), ("!", ["0", "1", "2", "n"])]
+    lines, impl, metas = [], [], []
+    for trial in range(30 if ctx.quick else 500):
+        prs = Presentation(); slide = prs.slides.add_slide(prs.slide_layouts[6])
+        sp = slide.shapes.add_textbox(0, 0, 99999, 99999) if trial % 2 else slide.shapes.add_shape(1, 0, 0, 99999, 99999)
+        tf = sp.text_frame
+        bodyPr = tf._txBody.bodyPr
+        if trial < len(scripts):
+            start, ops = scripts[trial]
+        else:
+            els = []
+            for _ in range(rng.choice([0, 1, 1, 2, 3])):
+                k = rng.randrange(3)
+                els.append("%d/%s/%s" % (k, rng.choice(["n", "62500", "90000"]) if k == 1 else "n", rng.choice(["n", "20000"]) if k == 1 else "n"))
+            start = ",".join(els) or "!"
+            ops = [rng.choice(["n", "0", "1", "2", "0", "1", "2", "x"]) for _ in range(rng.randint(1, 6))]
+        for tag in tags:
+            for el in bodyPr.findall("{%s}%s" % (A, tag)):
+                bodyPr.remove(el)
+        if start != "!":
+            for t in start.split(","):
+                k, a, b = t.split("/")
+                el = etree.Element("{%s}%s" % (A, tags[int(k)]))
+                if a != "n":
+                    el.set("fontScale", a)
+                if b != "n":
+                    el.set("lnSpcReduction", b)
+                bodyPr.insert(0 + len([c for c in bodyPr if etree.QName(c).localname in tags + ["prstTxWarp"]]), el)
+
+        def state(frame=None):
+            kids = [c for c in bodyPr if etree.QName(c).localname in tags]
+            st = ",".join("%d/%s/%s" % (tags.index(etree.QName(c).localname), c.get("fontScale") or "n", c.get("lnSpcReduction") or "n") for c in kids) or "!"
+            v = (frame or slide.shapes[0].text_frame).auto_size
+            return st + "|" + ("n" if v is None else str(members.index(v)))
+        outs = ["start|" + state()]
+        want = outs[0].split("|")[-1]
+        for done, op in enumerate(ops):
+            val = None if op == "n" else rng.choice([7, "x", 2.5]) if op == "x" else members[int(op)]
+            target = tf if rng.randrange(2) else slide.shapes[0].text_frame
+            try:
+                target.auto_size = val
+                outs.append("ok|" + state())
+                if op == "x":
+                    ctx.fail("domain:auto_size", f"text frame {start} after {ops[:done]}: auto_size = {val!r} is accepted", {"start": start, "ops": ops[:done + 1]})
+                else:
+                    want = op
+            except ValueError:
+                outs.append("V|" + state())
+                if op != "x":
+                    ctx.fail("domain:auto_size", f"text frame {start} after {ops[:done]}: auto_size = {val!r} is refused", {"start": start, "ops": ops[:done + 1]})
+            got = outs[-1].split("|")[-1]
+            held = state(tf).split("|")[-1]
+            if got != want or held != want:
+                ctx.fail("readback:auto_size", f"text frame with autofit children {start} (0 noAutofit, 1 normAutofit, 2 spAutoFit): after auto_size assignments {ops[:done + 1]} (n = None, x = no member) "
+                         f"a new proxy reads {got}, the held one {held}, the last accepted value is {want}", {"start": start, "ops": ops[:done + 1]})
+                ops = ops[:done + 1]
+                break
+        line = "c09.fit %s %s" % (start, ";".join(ops) or "!")
+        lines.append(line); impl.append(";".join(outs)); metas.append({"conv": "autofit", "start": start, "ops": ops})
+        ctx.case(key=line); ctx.count("autofit-model-histories")
+        if trial % 5 == 0:
+            b = io.BytesIO(); prs.save(b)
+            v = Presentation(io.BytesIO(b.getvalue())).slides[0].shapes[0].text_frame.auto_size
+            if v != slide.shapes[0].text_frame.auto_size:
+                ctx.fail("reopen:auto_size", f"text frame {start} after {ops}: auto_size reads {slide.shapes[0].text_frame.auto_size}, after save and re-open {v}", {"start": start, "ops": ops})
+    for line, i, m, meta in zip(lines, impl, ctx.driver.run(lines), metas):
+        ctx.traces += 1
+        if i != m:
+            ctx.disagree("autofit", dict(meta, line=line), i, m)
+
+
 _ELM_ATTRS = ("_element", "_xPr", "_xFill", "_rPr", "_r", "_p", "_pPr", "_txBody", "_tc", "_tr", "_gridCol", "_ln", "_ser", "_chartSpace", "_gs", "_tbl",
               "_pic", "_sp", "_cxnSp", "_graphicFrame", "_xAx", "_dLbls", "_legend", "_title", "_marker", "_parent", "_bodyPr", "_hlink", "_prstGeom")
 
@@ -1631,6 +1714,7 @@ def correspond(ctx):
     point_order(ctx)
     adjustment_proxies(ctx)
     spacings(ctx)
+    autofits(ctx)
     held_proxies(ctx)
     rng = ctx.rng
     reps = 6 if ctx.quick else 20
